@@ -522,6 +522,7 @@ func genPipePlan(seed int64, o PipeGenOpts) *PipePlan {
 		// for 30 s, adds workers under load and retires them (closing their quit
 		// channel) after 16 idle cycles. Phase 1 is moved onto the sampling
 		// instants as bursts, the last phase far behind the scale-down.
+		p.Profile = "dynamic-workers"
 		p.Cfg.DynWorkers = true
 		p.Cfg.SockQueue = 4096
 		p.Cfg.CapUDP = 1000
@@ -579,6 +580,7 @@ func genPipePlan(seed int64, o PipeGenOpts) *PipePlan {
 		}
 	}
 	if o.LongGap > 0 && !o.Dyn {
+		p.Profile = "long-silence"
 		// hours or days pass between the announcements and the data
 		for i := range p.Dels {
 			if p.Dels[i].Phase >= 1 {
@@ -588,6 +590,7 @@ func genPipePlan(seed int64, o PipeGenOpts) *PipePlan {
 		}
 	}
 	if o.Volume && !o.Dyn {
+		p.Profile = "volume"
 		// volume: the data datagrams of the later phases are sent again and again
 		// (new sequence numbers) until several hundred are in flight towards one
 		// worker per protocol, and the consumer of the outgoing queue is slow
